@@ -790,13 +790,15 @@ def collRemove (sch : Schema) (fuel : Nat) (o : ObjId) (c : AttrId) (items : Lis
       let r := s.row o
       let added0 := r.added c
       let removed0 := r.removed c
-      let isOld := fun x => old.contains x
+      -- items &= setdata: for a one-to-many collection the reverse calls have removed the items already (reverse_remove did all the
+      -- bookkeeping: count, added, removed); only what is still in setdata is handled here
+      let still := old.filter fun x => r.items c x
+      let isOld := fun x => still.contains x
       let old' : ObjId → Bool := if s.nonEmpty added0 then fun x => isOld x && !added0 x else isOld
       let added1 : ObjId → Bool := if s.nonEmpty added0 then fun x => added0 x && !isOld x else added0
       let removed1 : ObjId → Bool := if s.nonEmpty removed0 then fun x => removed0 x || old' x else old'
-      -- count -= len(items & setdata): for a one-to-many collection the reverse calls have removed (and counted) the items already
       let s1 := s.upd o fun r => { r with items := set1 r.items c (fun x => r.items c x && !isOld x),
-                                          count := set1 r.count c (r.count c - (old.filter fun x => r.items c x).length),
+                                          count := set1 r.count c (r.count c - still.length),
                                           added := set1 r.added c added1, removed := set1 r.removed c removed1 }
       .ok (st.setStore { s1 with modColl := set2 s1.modColl c o true, modKey := set1 s1.modKey c true, modified := true })
   | _, _ => .err .noSuchAttr st
@@ -864,23 +866,14 @@ def create (sch : Schema) (fuel : Nat) (e : EntId) (pk : Option Nat) (vals : Lis
 
 /-! ## 11. flush (in-memory effects; never fails in the model) -/
 
-/-- `cache.flush()`: `_calc_modified_m2m` clears added/removed (only on the side that sorts first for a many-to-many pair),
+/-- `cache.flush()`: `_calc_modified_m2m` clears added/removed of the modified collections,
     `_save_` moves statuses on, the save queue and `modified_collections` are emptied.
     `ids` are the primary keys the database assigned to objects created without one. -/
 def flush (sch : Schema) (ids : List (ObjId × Nat)) (s : Store) : Store :=
   if !s.modified then s else
-  let clears : AttrId → Bool := fun c =>
-    match sch.decl c with
-    | some d =>
-      match sch.decl d.rev with
-      | some rd =>
-        if rd.kind != .coll then true
-        else if d.rev = c then true
-        -- a many-to-many pair is handled once, from the side that is a key of modified_collections and whose
-        -- (entity name, attribute name) sorts first; the other side is skipped (`if reverse in modified_m2m: continue`)
-        else !(s.modKey d.rev && (rd.ent < d.ent || (rd.ent = d.ent && d.rev < c)))
-      | none => true
-    | none => true
+  -- _calc_modified_m2m resets added/removed of every object in modified_collections (also on the side of a many-to-many pair
+  -- whose link rows were collected from the reverse side)
+  let clears : AttrId → Bool := fun _ => true
   let s1 : Store := { s with row := fun o =>
     let r := s.row o
     let r := { r with
